@@ -355,7 +355,7 @@ Proof.
   destruct (nth_error l pos) as [k|] eqn:E; [|apply Hsame; exact H].
   injection H as <- <-. split; [split; simpl|split; reflexivity].
   - apply remove_at_NoDup; assumption.
-  - intros x Hx. apply Hi. eapply remove_at_In; eassumption.
+  - intros x Hx. apply Hi. simpl in Hx. exact (remove_at_In _ _ _ Hx).
 Qed.
 
 (* the pinned InsertIndexEntryAt happily inserts a name a second time (its documented precondition);
